@@ -1477,3 +1477,123 @@ func ruleChunkLoopComplete(c *Ctx) {
 		}
 	}
 }
+
+// ruleSidePairing (R-LR-PAIRING): in mdiff.New each running position (lcur, rcur) is what the fields of one side of
+// a chunk are set from (cur.LStart, cur.LEnd = lcur, lcur): that pairs every position with the range fields of its
+// side.  A comparison between a running position and a range field compares a position with a field of ITS side;
+// `rcur > cur.LEnd` compares the right position with the left range.
+func ruleSidePairing(c *Ctx) {
+	c.rule("R-LR-PAIRING", 0, "in mdiff.New a running position is compared only with the range fields that are set from it")
+	fn := c.P.Func("mdiff", "", "New")
+	chunkT := c.P.Named("mdiff", "Chunk")
+	if fn == nil || chunkT == nil {
+		return
+	}
+	// a running position: a local of New (a cell when closures capture it) — identified by its cell
+	cellOf := func(v ssa.Value) ssa.Value {
+		if a, ok := loadAddr(v); ok {
+			switch a.(type) {
+			case *ssa.Alloc, *ssa.FreeVar:
+				return a
+			}
+		}
+		return nil
+	}
+	// a free variable of a closure stands for the cell bound to it
+	bind := map[ssa.Value]ssa.Value{}
+	for _, f := range withClosures(fn) {
+		allInstrs(f, func(in ssa.Instruction) {
+			if mc, ok := in.(*ssa.MakeClosure); ok {
+				cf := mc.Fn.(*ssa.Function)
+				for i, b := range mc.Bindings {
+					if i < len(cf.FreeVars) {
+						bind[cf.FreeVars[i]] = b
+					}
+				}
+			}
+		})
+	}
+	canon := func(cell ssa.Value) ssa.Value {
+		for i := 0; i < 4; i++ {
+			if b, ok := bind[cell]; ok {
+				cell = b
+			}
+		}
+		return cell
+	}
+	pairs := map[ssa.Value]map[*types.Var]bool{}
+	chunkField := func(v ssa.Value) *types.Var {
+		fa, ok := v.(*ssa.FieldAddr)
+		if !ok || !isNamedOrigin(fa.X.Type(), chunkT) {
+			return nil
+		}
+		_, f := fieldVarOf(fa)
+		if f == nil || !isIntType(f.Type()) {
+			return nil
+		}
+		return f
+	}
+	for _, f := range withClosures(fn) {
+		allInstrs(f, func(in ssa.Instruction) {
+			st, ok := in.(*ssa.Store)
+			if !ok {
+				return
+			}
+			fld := chunkField(st.Addr)
+			if fld == nil {
+				return
+			}
+			if cell := cellOf(st.Val); cell != nil {
+				cc := canon(cell)
+				if pairs[cc] == nil {
+					pairs[cc] = map[*types.Var]bool{}
+				}
+				pairs[cc][fld] = true
+			}
+		})
+	}
+	if len(pairs) < 2 {
+		return
+	}
+	n := 0
+	for _, f := range withClosures(fn) {
+		f := f
+		allInstrs(f, func(in ssa.Instruction) {
+			bo, ok := in.(*ssa.BinOp)
+			if !ok || negOp(bo.Op) == token.ILLEGAL {
+				return
+			}
+			for _, pr := range [][2]ssa.Value{{bo.X, bo.Y}, {bo.Y, bo.X}} {
+				cell := cellOf(pr[0])
+				if cell == nil {
+					continue
+				}
+				cc := canon(cell)
+				if pairs[cc] == nil {
+					continue
+				}
+				a, ok := loadAddr(pr[1])
+				if !ok {
+					continue
+				}
+				fld := chunkField(a)
+				if fld == nil {
+					continue
+				}
+				// is the field paired with some position at all?
+				var owner ssa.Value
+				for oc, fs := range pairs {
+					if fs[fld] {
+						owner = oc
+					}
+				}
+				if owner == nil {
+					continue
+				}
+				n++
+				c.sawFn(fnName(fn))
+				c.judge(pairs[cc][fld], "R-LR-PAIRING", fmt.Sprintf("%s:%s vs .%s #%d", fnName(fn), ksym(pr[0]), fld.Name(), n), bo.Pos(), "a position compared with a range field of its own side", fmt.Sprintf("%s is compared with .%s, a field that is set from %s, the position of the other side: whether a new chunk is started is decided by comparing the two files' line numbers with each other", ksym(pr[0]), fld.Name(), ksym(owner)))
+			}
+		})
+	}
+}
